@@ -101,6 +101,10 @@ pub struct GenParams {
     /// give pre-delegated EOAs a balance at / one below / one above / far above the summed
     /// maximum cost of their own block transactions (reserve-policy boundary cases)
     pub reserve_shape: bool,
+    /// contract 0 is the hand-written "pointer" contract: mode 0 sets a pointer in slot 0,
+    /// mode 1 writes slot[1 + pointer], mode 2 copies slot[1 + a] to slot[8 + b]; a re-executed
+    /// writer *moves* its write (same write-set size, different location)
+    pub pointer_contract: bool,
 }
 
 impl Default for GenParams {
@@ -126,6 +130,7 @@ impl Default for GenParams {
             poor_senders: 0,
             stale_probe: false,
             reserve_shape: false,
+            pointer_contract: false,
         }
     }
 }
@@ -383,6 +388,42 @@ pub fn generate(p: &GenParams, seed: u64) -> Case {
             stmts.insert(7, Stmt::Const(5, 1));
             stmts.insert(8, Stmt::SStore(7, mix.slots, 5));
             prog.stmts = stmts;
+        }
+        if p.pointer_contract && i == 0 {
+            use progs::Arith::{Add, Eq};
+            prog.inits.clear();
+            prog.stmts = vec![
+                Stmt::Const(7, 0),
+                Stmt::SLoad(4, 7, 1), // r4 = pointer = SLOAD(0)
+                Stmt::ModK(5, 0, 3),  // mode
+                // mode 0: SSTORE(0, r1)
+                Stmt::Const(6, 0),
+                Stmt::Arith(6, 5, 6, Eq),
+                Stmt::IfZeroSkip(6, 2),
+                Stmt::Const(7, 0),
+                Stmt::SStore(7, 1, 1),
+                // mode 1: SSTORE(1 + pointer mod 4, r2)
+                Stmt::Const(6, 1),
+                Stmt::Arith(6, 5, 6, Eq),
+                Stmt::IfZeroSkip(6, 4),
+                Stmt::ModK(7, 4, 4),
+                Stmt::Const(6, 1),
+                Stmt::Arith(7, 7, 6, Add),
+                Stmt::SStore(7, 16, 2),
+                // mode 2: slot[8 + r2 mod 4] = slot[1 + r1 mod 4]
+                Stmt::Const(6, 2),
+                Stmt::Arith(6, 5, 6, Eq),
+                Stmt::IfZeroSkip(6, 8),
+                Stmt::ModK(7, 1, 4),
+                Stmt::Const(6, 1),
+                Stmt::Arith(7, 7, 6, Add),
+                Stmt::SLoad(3, 7, 16),
+                Stmt::ModK(7, 2, 4),
+                Stmt::Const(6, 8),
+                Stmt::Arith(7, 7, 6, Add),
+                Stmt::SStore(7, 16, 3),
+                Stmt::Return(3),
+            ];
         }
         let code = progs::compile(&prog);
         let addr = layout.con(i);
